@@ -28,6 +28,7 @@ type SetCase struct {
 	Hold     int          `json:"hold"`
 	Gate     string       `json:"gate,omitempty"` // task that is answered only once every catch event listens
 	NCatch   int          `json:"ncatch,omitempty"`
+	Together int          `json:"together,omitempty"` // the answerer waits until this many requests are pending and answers them all at the same moment, each from its own goroutine
 	Nested   int          `json:"nested,omitempty"` // number of processes whose body lies inside an embedded sub-process
 	Tags     []string     `json:"tags,omitempty"`
 	Vars     map[string]any `json:"vars,omitempty"`
@@ -99,6 +100,7 @@ func (c *SetCase) Main() {
 	go func() {
 		var pending []pendingReq
 		nAns := map[string]int{}
+		polls := 0
 		for {
 			if len(pending) == 0 {
 				idle.Set(1)
@@ -124,6 +126,34 @@ func (c *SetCase) Main() {
 				default:
 					more = false
 				}
+			}
+			if c.Together > 0 && len(pending) < c.Together && nAns["*"] == 0 && isCancelled.Get() == 0 {
+				// wait for the others (bounded), then answer all of them at once
+				polls++
+				if polls < 200 {
+					select {
+					case <-time.After(time.Millisecond):
+					case <-stop:
+						return
+					}
+					continue
+				}
+			}
+			if c.Together > 0 && nAns["*"] == 0 && len(pending) >= 2 {
+				nAns["*"] = 1
+				env.fault("answers-at-the-same-moment")
+				batch := pending
+				pending = nil
+				for _, r := range batch {
+					r := r
+					nAns[r.act]++
+					L.AddV("ans", r.act, map[string]any{})
+					go func() {
+						r.tt.Do(bpmn.DoWithResults(map[string]any{}))
+						L.Add("ans-ret", r.act, "", 0)
+					}()
+				}
+				continue
 			}
 			// the gate task is held back until every catch event reported that it listens
 			var cand []int
@@ -267,6 +297,48 @@ func genC18(d *Draw) Case {
 		desc = append(desc, "P1(T1 -> throw TH1 -> [T2] -> throw TH2), both => catch P2_C, which two tokens of P2 reach behind tasks G1, G2")
 		c.Tags = append(c.Tags, "message-flow", "two-throws-one-catch")
 		c.Hold = 1
+	} else if d.N(5) == 4 {
+		// the throw races the catch event's first listening: P1's task in front of the throw event and P2's task in
+		// front of the catch event are answered at the same moment, and a few throw events without message flow on
+		// either path skew the two chains against each other. Whichever comes first, the catch event is woken once.
+		g := mkProc("P1", true)
+		g.addNode(&Node{ID: "P1_Start", Kind: "start"})
+		g.addNode(&Node{ID: "P1_T1", Kind: "task"})
+		g.connect(defs, "P1_Start", "P1_T1", nil, -1)
+		cur := "P1_T1"
+		for i, n := 0, d.N(3); i < n; i++ {
+			id := fmt.Sprintf("P1_K%d", i+1)
+			g.addNode(&Node{ID: id, Kind: "throw"})
+			g.connect(defs, cur, id, nil, -1)
+			cur = id
+		}
+		g.addNode(&Node{ID: "TH1", Kind: "throw", Events: []EventDef{{Kind: "signal", Ref: "sC"}}})
+		g.connect(defs, cur, "TH1", nil, -1)
+		g.addNode(&Node{ID: "P1_End", Kind: "end"})
+		g.connect(defs, "TH1", "P1_End", nil, -1)
+		p2 := mkProc("P2", true)
+		p2.addNode(&Node{ID: "P2_Start", Kind: "start"})
+		p2.addNode(&Node{ID: "P2_G", Kind: "task"})
+		p2.connect(defs, "P2_Start", "P2_G", nil, -1)
+		cur = "P2_G"
+		for i, n := 0, d.N(3); i < n; i++ {
+			id := fmt.Sprintf("P2_K%d", i+1)
+			p2.addNode(&Node{ID: id, Kind: "throw"})
+			p2.connect(defs, cur, id, nil, -1)
+			cur = id
+		}
+		p2.addNode(&Node{ID: "P2_C", Kind: "catch", Relaxed: true, Events: []EventDef{{Kind: "signal", Ref: "sC"}}})
+		p2.connect(defs, cur, "P2_C", nil, -1)
+		p2.addNode(&Node{ID: "P2_T", Kind: "task"})
+		p2.connect(defs, "P2_C", "P2_T", nil, -1)
+		p2.addNode(&Node{ID: "P2_End", Kind: "end"})
+		p2.connect(defs, "P2_T", "P2_End", nil, -1)
+		defs.MsgFlows = append(defs.MsgFlows, [2]string{"TH1", "P2_C"})
+		defs.Signals = []string{"sC"}
+		desc = append(desc, "P1(T1 -> throw TH1) => catch P2_C behind task G; T1 and G answered at the same moment")
+		c.Tags = append(c.Tags, "message-flow", "throw-races-listening")
+		c.Together = 2
+		c.Hold = 0
 	} else if d.N(4) == 3 {
 		// burst: one executable process forks into k throw events, each instantiating its own waiting process
 		k := 2 + d.N(6)
@@ -589,6 +661,7 @@ func checkC18(cc Case, r *simrt.Result) *Outcome {
 	}
 	probe(o, "process-finishes-at-once", trivial)
 	probe(o, "message-flow", len(c.Defs.MsgFlows) > 0)
+	probe(o, "throw-races-the-catch-event's-first-listening", c.Together > 0)
 	probe(o, "process-bodies-inside-sub-processes", c.Nested > 0)
 	probe(o, "message-flow-with-bodies-inside-sub-processes", c.Nested > 0 && len(c.Defs.MsgFlows) > 0)
 	probe(o, "throw-burst", hasTag(c.Tags, "throw-burst"))
